@@ -9,6 +9,8 @@ CONSTANTS
   EditTo <- Edits
   InvalidateOnEdit = FALSE
   IoMode = FALSE
+  Record = FALSE
+  MaxOps = 6
 INVARIANT EmittedSat
 INVARIANT Complete
 INVARIANT Coherent
